@@ -138,6 +138,9 @@ pub struct ParkedThread {
 struct Ctl {
     /// points at which arriving threads park
     park_points: Vec<u32>,
+    /// park only threads other than an event-loop thread (a SAVE issued while a background save is being
+    /// stepped must run through)
+    park_background_only: bool,
     parked: Vec<ParkedThread>,
     /// fail the write whose 0-based index equals this
     fail_write_at: Option<u64>,
@@ -170,6 +173,7 @@ fn with_ctl<R>(f: impl FnOnce(&mut Ctl) -> R) -> R {
     if g.is_none() {
         *g = Some(Ctl {
             park_points: Vec::new(),
+            park_background_only: false,
             parked: Vec::new(),
             fail_write_at: None,
             fail_writes_from: None,
@@ -195,6 +199,24 @@ pub fn register_gate(g: Arc<Gate>) {
 
 pub fn set_park_points(points: &[u32]) {
     with_ctl(|c| c.park_points = points.to_vec());
+}
+
+pub fn set_park_background_only(on: bool) {
+    with_ctl(|c| c.park_background_only = on);
+}
+
+/// Wait (real time, bounded) until some background thread is parked at any point; returns it.
+pub fn wait_parked_background(timeout_ms: u64) -> Option<ParkedThread> {
+    let start = vtime::real_now_ns();
+    loop {
+        if let Some(p) = with_ctl(|c| c.parked.iter().find(|p| !p.on_server_thread && !p.released).cloned()) {
+            return Some(p);
+        }
+        vtime::real_sleep_us(10);
+        if vtime::real_now_ns() - start > timeout_ms * 1_000_000 {
+            return None;
+        }
+    }
 }
 
 pub fn counter(point: u32) -> u64 {
@@ -352,7 +374,7 @@ fn hook(point: u32, arg: u64) -> u64 {
         let (fail, park) = with_ctl(|c| {
             *c.counters.entry(point).or_insert(0) += 1;
             let fail = c.fail_write_at == Some(n) || c.fail_writes_from.map(|f| n >= f).unwrap_or(false);
-            (fail, c.park_points.contains(&point))
+            (fail, c.park_points.contains(&point) && !(on_server_thread && c.park_background_only))
         });
         if park {
             park_here(point, n, on_server_thread);
@@ -369,7 +391,7 @@ fn hook(point: u32, arg: u64) -> u64 {
         if c.trace_on {
             c.trace.push((point, arg, vtime::my_tid()));
         }
-        c.park_points.contains(&point)
+        c.park_points.contains(&point) && !(on_server_thread && c.park_background_only)
     });
     if park {
         park_here(point, arg, on_server_thread);
